@@ -60,6 +60,7 @@ type Contract struct {
 	Params   []string // explicit parameter names (trusted specs for functions without source names)
 	Used     bool
 	Holds    []HoldsClause // holds <monitor> <owner expr>: the caller holds the lock for the whole call
+	ConstCaptures []string // captured variables assumed not to change during the call (listed as trusted)
 	Shell    bool          // an empty contract made up for a critical-section unit: callee preconditions are assumed, not proved
 }
 
@@ -151,7 +152,7 @@ var clauseKeywords = map[string]bool{
 	"ghost": true, "loop": true, "nopanic": true, "trusted": true, "panics": true, "track": true, "global-invariant": true,
 	"monitor": true, "invariant": true, "transition": true, "lemma": true, "axiom": true, "inline": true, "assert": true,
 	"props": true, "params": true, "protects": true, "snapshot": true, "abstract": true, "callee": true, "ghostvar": true, "on": true, "state": true, "closeonly": true, "assume": true, "freshcounter": true,
-	"trust-section": true, "unpublished": true, "holds": true,
+	"trust-section": true, "unpublished": true, "holds": true, "constant": true,
 }
 
 type rawClause struct {
@@ -526,6 +527,10 @@ func (db *SpecDB) LoadSpecFile(path, pkgPath string) error {
 				}
 			case "inline":
 				cur.Inline = true
+			case "constant":
+				for _, p := range strings.Split(rc.rest, ",") {
+					cur.ConstCaptures = append(cur.ConstCaptures, strings.TrimSpace(p))
+				}
 			case "ghost":
 				i := strings.Index(rc.rest, ":=")
 				if i < 0 {
